@@ -103,10 +103,10 @@ def main(run):
             run.evaluations += len(res)
             run.extra[f'{part}_cases_{tag}'] = len(res)
     # (iv) containers mutated BETWEEN two __next__ calls of a suspended iterator (IterM programs), sanitizer build: a crash or
-    # a sanitizer report kills the driver (= violation); results are judged by IterSem as in C03
+    # a sanitizer report kills the driver (= violation); wrong results are C03's business and only noted here
     progs = I.exhaustive_programs(run, 'mut', 3 if quick else 4, cap=2500 if quick else 40000, seed=run.seed) \
         + I.random_programs(600 if quick else 8000, 40, run.seed + 9)
-    n = I.replay_and_judge(run, 'iter-asan', progs, asan=True)
+    n = I.replay_and_judge(run, 'iter-asan', progs, asan=True, law=False)
     run.evaluations += n
     run.extra['iterator_programs_asan'] = n
     shutil.rmtree(wd, ignore_errors=True)
